@@ -40,6 +40,7 @@ type Engine struct {
 	intrCache map[*ssa.Function]Intrinsic
 	worklist  []*State
 	base      *State // post-init snapshot
+	baseObjs  []*Object
 
 	// per-run results
 	Paths      int
@@ -160,7 +161,7 @@ func (e *Engine) Prepare(pkgs []*ssa.Package) error {
 			if g, ok := p.Members[n].(*ssa.Global); ok {
 				id := e.globalObj(st, g)
 				if !allowed && n != "init$guard" {
-					st.objs[id].Poison = "package " + p.Pkg.Path() + " not initialised by vsym"
+					st.newObj(id).Poison = "package " + p.Pkg.Path() + " not initialised by vsym"
 				}
 			}
 		}
@@ -176,6 +177,15 @@ func (e *Engine) Prepare(pkgs []*ssa.Package) error {
 			return fmt.Errorf("init of %s: %s %s at %s\n%s", p.Pkg.Path(), out.Kind, out.Label, out.Site, strings.Join(out.Stack, "\n"))
 		}
 	}
+	// freeze: everything allocated so far becomes the shared base
+	e.baseObjs = st.objs
+	for _, o := range e.baseObjs {
+		if o != nil {
+			o.owner = -1
+		}
+	}
+	st.nbase = len(st.objs)
+	st.objs = nil
 	e.base = st
 	return nil
 }
